@@ -522,8 +522,16 @@ def separation(chk, thorough):
         else:
             other = "numba" if k == "language" else str(default) + "x"
         key = "sig:scalar-type" if k == "scalar_type" else f"sig:option:{k}"
+        # the property requires separation only of requests that would generate different kernels: an option that leaves the
+        # generated text (comments aside) unchanged for this form (verbosity, an inapplicable sum_factorization) may share a name
+        def _nocomment(t):
+            return "\n".join(l for l in str(t).splitlines() if not l.lstrip().startswith(("//", "#")))
+        try:
+            differ = _nocomment(_code_of(form(), {k: other})) != _nocomment(_code_of(form(), {}))
+        except Exception:
+            differ = True
         check(key, f"option {k}={default!r} and {other!r} share a module name", name(form(), options={}), name(form(), options={k: other}),
-              {"option": k, "values": [repr(default), repr(other)]})
+              {"option": k, "values": [repr(default), repr(other)], "generated_kernels_differ": differ}, kernels_differ=differ)
     check("sig:compile-args", "different cffi_extra_compile_args share a module name",
           name(form(), cffi_extra_compile_args=["-O2"]), name(form(), cffi_extra_compile_args=["-O3"]), {"args": [["-O2"], ["-O3"]]})
     check("sig:compile-args-split", "['-O2', '-g'] and ['-O2 -g'] share a module name",
